@@ -605,11 +605,15 @@ impl AnyTree {
     #[verifier::external_body]
     pub fn l0_run_count(&self) -> (r: usize) { unimplemented!() }
 }
+/// identity of the folder a tree lives in
+pub open spec fn folder_of(tree: u64) -> int { tree as int }
 impl VersionHistoryLock {
     // drops super-versions that no snapshot above the watermark can need
     #[verifier::external_body]
     pub fn maintenance(&self, path: &PathBuf, gc_watermark: u64, Tracked(w): Tracked<&mut World>) -> (r: Result<(), lsm_tree::Error>)
         requires gc_watermark <= old(w).tracker.freed, // [C05:P-GC] [C01:P-GC]
+            // the version files that are unlinked are looked up in `path`: it must be the folder of the tree whose history this is
+            path.id@ == folder_of(self.tree@), // [C12:version-gc-of-a-tree-runs-in-that-trees-own-folder] [C01:version-gc-of-a-tree-runs-in-that-trees-own-folder] [C04:version-gc-of-a-tree-runs-in-that-trees-own-folder] [C18:version-gc-of-a-tree-runs-in-that-trees-own-folder]
         ensures *final(w) == *old(w),
     { unimplemented!() }
 }
